@@ -52,19 +52,36 @@ class World(object):
 WORLD = [None]
 
 
+def _modules_binding_parallel():
+    """persim.images today; any other persim module that a change makes import joblib's Parallel."""
+    try:
+        import joblib
+        real = joblib.Parallel
+    except Exception:
+        real = None
+    out = []
+    for name, mod in list(sys.modules.items()):
+        if mod is None or not (name == "persim" or name.startswith("persim.")):
+            continue
+        cur = mod.__dict__.get("Parallel")
+        if cur is not None and (cur is real or cur is SimParallel or hasattr(mod, "_verif_real_Parallel")):
+            out.append(mod)
+    return out
+
+
 def install(world):
     import persim  # noqa: F401
-    mod = sys.modules["persim.images"]
-    if not hasattr(mod, "_verif_real_Parallel"):
-        mod._verif_real_Parallel = mod.Parallel
-    mod.Parallel = SimParallel
+    for mod in _modules_binding_parallel():
+        if not hasattr(mod, "_verif_real_Parallel"):
+            mod._verif_real_Parallel = mod.Parallel
+        mod.Parallel = SimParallel
     WORLD[0] = world
 
 
 def uninstall():
-    mod = sys.modules.get("persim.images")
-    if mod is not None and hasattr(mod, "_verif_real_Parallel"):
-        mod.Parallel = mod._verif_real_Parallel
+    for mod in _modules_binding_parallel():
+        if hasattr(mod, "_verif_real_Parallel"):
+            mod.Parallel = mod._verif_real_Parallel
     if WORLD[0] is not None:
         WORLD[0].close()
     WORLD[0] = None
@@ -203,7 +220,7 @@ class SimParallel(object):
         results = []
         errors = []
         repo = os.path.realpath(os.environ.get("VERIF_REPO", "/repo"))
-        traced_prefix = os.path.join(repo, "persim", "images")
+        traced_prefix = os.path.join(repo, "persim") + os.sep
         ksw = max(2, world.p_switch)
 
         def yield_baton(me, to):
